@@ -204,13 +204,43 @@ def runner(rep, tier, seed, replay):
                                stderr=res.get("stderr", "")[-300:]), feat)
         elif i in mism_kind:
             drift += 1
+    # ---- the tokenizer itself: spec/Tokenizer.tla is parse_line transcribed statement by statement; every string over a
+    # 14-symbol alphabet up to length 4 (thorough 5) must be tokenized by the real parse_line exactly as by the transcription
+    # (conformance of the specification to the code: drift is reported, it is not by itself a violation), and TLC compares the
+    # transcription with the reference reader (the classes where they differ are the tokenizer's recorded deviations)
+    tcases = []
+    rt = run_tlc("MCTokenizer", "MCTokenizer_4" if tier == "quick" else "MCTokenizer_5", on_replay=tcases.append, keep_replays=False,
+                 timeout=3000, xmx="16g")
+    if rt.violation:
+        raise ToolError("transcription of parse_line is not total:\n" + rt.violation[:1500])
+    rep.add_tlc(rt)
+    tgot = inproc_map("tokens", [{"id": i, "line": chars(list(c["s"]))} for i, c in enumerate(tcases)], timeout=20)
+    tdrift, tdis = [], {}
+    for c, g in zip(tcases, tgot):
+        if g is None or "panic" in g or g.get("hang") or "abort" in g:
+            tdrift.append(c["s"])
+            continue
+        if g.get("arith"):
+            continue
+        want = [[t[0], chars(list(t[1]))] for t in c["tokens"]]
+        if g.get("tokens") != want or bool(g.get("complete")) != bool(c["complete"]):
+            tdrift.append(c["s"])
+        if c["complete"] and not c["agrees"] and ">" not in c["s"]:      # a bare > is a redirection for the reader, a word for the tokenizer
+            key = "".join(sorted(set(c["s"]) & set("'\"`\\$()|#=>")))
+            tdis[key] = tdis.get(key, 0) + 1
+    if tdrift:
+        log("[C01] tokenizer transcription drift on %d strings, e.g. %r" % (len(tdrift), tdrift[:5]))
+    rep.cov["tokenizer_strings"] = len(tcases)
+    rep.cov["tokenizer_drift"] = len(tdrift)
+    rep.cov["tokenizer_drift_examples"] = tdrift[:10]
+    rep.cov["tokenizer_vs_reader_disagreements_by_characters"] = dict(sorted(tdis.items(), key=lambda kv: -kv[1])[:25])
     rep.cov["evaluations"] = len(cases)
     rep.cov["distinct_nontrivial"] = len({c["line"] for c in cases if set(c["feat"]["chars"]) & SPECIAL})
     rep.cov["traces_validated_against_impl"] = len(cases)
     rep.cov["inprocess_mismatches"] = len(mism)
     rep.cov["process_level_runs"] = len(to_run)
     rep.cov["confirmed_at_process_level"] = confirmed
-    rep.cov["spec_drift"] = drift
+    rep.cov["spec_drift"] = drift + len(tdrift)
     rep.cov["exhaustive"] = True
     for c in rnd.sample(cases, min(5, len(cases))):
         rep.sample({"line": c["line"], "expected": c["segs"]})
